@@ -331,11 +331,25 @@ type c18Serial struct {
 	V     c18V `json:"v"`
 	NVb   int  `json:"nvb"`
 	EndMs int  `json:"end_ms"`
+	// the gate is a function of the server version alone: other settings (finite mode, rollback mitigation off / on,
+	// checkpoint type) do not move it
+	Finite bool `json:"finite,omitempty"`
+	Auto   bool `json:"auto,omitempty"`
 }
 
 func c18ExecSerial(sc c18Serial) (string, bool) {
 	cfg := laConfig()
+	if sc.Finite {
+		cfg.Dcp.Mode = "finite"
+	}
+	if sc.Auto {
+		cfg.Checkpoint.Type = "auto"
+		cfg.Checkpoint.Interval = time.Hour
+	}
 	cl := newFakeClient(16)
+	for v := 0; v < 16; v++ {
+		cl.setHigh(uint16(v), 10) // (finite mode: the streams are requested up to here and are still open when they are closed)
+	}
 	cl.endOnClose = true
 	cl.endAsync = time.Duration(sc.EndMs) * time.Millisecond
 	disc := &fakeDiscovery{}
@@ -381,6 +395,8 @@ func TestC18_SerialClose(t *testing.T) {
 		sc := c18Serial{NVb: rapid.IntRange(2, 6).Draw(rt, "nvb"), EndMs: rapid.IntRange(2, 5).Draw(rt, "endms")}
 		sc.V = c18V{rapid.SampledFrom([]int{4, 5, 5, 5, 6, 7}).Draw(rt, "major"), rapid.SampledFrom([]int{0, 4, 5, 5, 6}).Draw(rt, "minor"),
 			rapid.SampledFrom([]int{0, 0, 1, 9}).Draw(rt, "patch"), rapid.SampledFrom([]int{0, 0, 1, 9999}).Draw(rt, "build")}
+		sc.Finite = rapid.IntRange(0, 2).Draw(rt, "finite") == 0
+		sc.Auto = rapid.IntRange(0, 3).Draw(rt, "auto") == 0
 		d, serial := c18ExecSerial(sc)
 		if d != "" {
 			violation(rt, "C18", "c18serial", sc, "%s", d)
@@ -389,7 +405,11 @@ func TestC18_SerialClose(t *testing.T) {
 		if serial {
 			lab = "layer_a_serial_close"
 		}
-		record("C18", sc, sc.V[0] == 5, "serial_close_cases", lab)
+		labs := []string{"serial_close_cases", lab}
+		if sc.Finite {
+			labs = append(labs, "serial_close_finite_mode")
+		}
+		record("C18", sc, sc.V[0] == 5, labs...)
 	})
 }
 
